@@ -68,13 +68,13 @@ PROPERTIES = {
         'explanation': 'per-bunch functional postconditions (ghost cell n,x,y) and frames of every transport map',
     },
     'C15': {
-        'units': [sm.KickMapApplyTo, sm.FokkerPlanckApplyTo, sm.UpdateSM, sm.CalcCoefficiants],
+        'units': [sm.KickMapApplyTo, sm.FokkerPlanckApplyTo, sm.UpdateSM, sm.CalcCoefficiants, io.HDF5AppendTracks],
         'leaves': [leaf.FPApplyToLeaf, leaf.KickApplyToLeaf, leaf.PSxLeaf],
         'lemmas': [sm.lemmas_weights],
         'level': 'other',
         'claim': 'a tracked particle is displaced by minus the linearly interpolated offset (the displacement of the charge, by the k=1 moment lemma), every map keeps both '
                  'coordinates on the grid, the stochastic model is an Ornstein-Uhlenbeck step about the zero-energy bin; for every real position/offset (ideal arithmetic)',
-        'assumptions': [A_IDEAL, A_LIB, DROPS, 'random draws are unconstrained reals', 'HDF5File::appendTracks index obligation is part of C17'],
+        'assumptions': [A_IDEAL, A_LIB, DROPS, 'random draws are unconstrained reals', 'HDF5File::appendTracks requires every coordinate in [0, N-1] — the range the tracking maps are proved to keep'],
         'uncovered': ['statistical statement that an ensemble keeps mean and width (consequence of the OU step, not machine-checked)',
                       'IEEE special values in KickMap::applyTo (FokkerPlanckMap::applyTo is covered bit-precisely by the CBMC leaf unit, grid sizes up to 64)'],
         'explanation': 'posts of KickMap::applyTo and FokkerPlanckMap::applyTo for all four tracking models',
@@ -178,7 +178,7 @@ PROPERTIES = {
         'units': SM_KICK + SM_FP + [sm.IdentityApply, sm.KickMapApplyTo, sm.FokkerPlanckApplyTo,
                                     ps.RulerCtor, ps.SimpsonWeights, ps.UpdateXProjection, ps.UpdateYProjection, ps.Integrate, ps.Normalize, ps.Average, ps.Variance, ps.Swap, ps.MakePSFromTXTLoop, ps.PhaseSpaceCtor, ps.PhaseSpaceCtor8, ps.PhaseSpaceCtor12, ps.PhaseSpaceCopyCtor,
                                     ef.PadBunchProfiles, ef.WakePotential, ef.UpdateCSR, ef.ElectricFieldCtor, ef.ElectricFieldCtor11, ef.InitWakeLossFFT,
-                                    mainspec.MainConfig] + Z_UNITS,
+                                    mainspec.MainConfig, io.HDF5FileSources, io.HDF5AppendField, io.HDF5AppendTracks] + Z_UNITS,
         'leaves': [leaf.UpperPow2Leaf, leaf.FPApplyToLeaf, leaf.KickApplyToLeaf, leaf.PSxLeaf],
         'lemmas': [],
         'level': 'other',
@@ -239,13 +239,13 @@ PROPERTIES = {
         'technique': TECH,
     },
     'C10': {
-        'units': [mainloop.MainLoop, ps.UpdateXProjection, ps.UpdateYProjection, ps.Integrate, ps.Variance, ef.WakePotential, ef.UpdateCSR, ef.ElectricFieldScale, io.HDF5FileSources],
+        'units': [mainloop.MainLoop, ps.UpdateXProjection, ps.UpdateYProjection, ps.Integrate, ps.Variance, ef.WakePotential, ef.UpdateCSR, ef.ElectricFieldScale, io.HDF5FileSources, io.HDF5AppendField, io.HDF5AppendTracks],
         'lemmas': [],
         'level': 'other',
-        'claim': 'partial: at every output event and at exit the CSR, wake-potential and particle datasets receive as many records as the time axis; the time value of the final record is simulationstep/steps; the derived quantities appended are the ones '
+        'claim': 'partial: every record of a multi-row dataset takes row b from row b of its source (dataset extents vs buffer layout; for /CSR/Spectrum proved on the row copy of append(ElectricField*)) and no append reads beyond its source buffer; at every output event and at exit the CSR, wake-potential and particle datasets receive as many records as the time axis; the time value of the final record is simulationstep/steps; the derived quantities appended are the ones '
                  'computed by the verified projection/moment/CSR functions from the current grid (refresh calls precede the append in the skeleton); pending RF records are flushed at exit',
-        'assumptions': [DROPS, 'HDF5File: only the pairing dataset <- source accessor of append(ps,t,at) and of the two axis writes is checked (AST facts); which dataset the other append overloads extend is taken from reading the code; the HDF5 library is trusted'],
-        'uncovered': ['frequency and time axes', 'unit-conversion attributes other than the wake scale and Volt factor', 'per-bunch row strides of /CSR/Spectrum', 'time values of intermediate records'],
+        'assumptions': [DROPS, 'HDF5File: the pairing dataset <- source accessor, the record extents of every dataset against the layout of its source buffer (class invariants of PhaseSpace / ElectricField / KickMap), and one record per append call are obligations over AST facts; append(const ElectricField*, bool) is enforced by the VCG with _appendData bound to a capture of pointer and buffer contents; the HDF5 library is trusted to transfer exactly the selected extents'],
+        'uncovered': ['frequency axis values', 'unit-conversion attributes other than the wake scale and Volt factor', 'time values of intermediate records'],
         'explanation': 'ghost row counters on the control skeleton',
         'technique': TECH,
     },
